@@ -307,6 +307,38 @@ func runC04(res *Result, d *Driver, g *Rng, tier string) {
 			res.Violate("C04.frames-not-exact:"+cname, fmt.Sprintf("%d frames sent, %d delivered, %d octets left buffered (tail %d), closed=%v", len(frames), len(del), buffered, tailLen, closed), rep)
 		}
 	}
+	// a ladder of frame lengths: every length 4..80 and every length within 5 of a power of two up to 2^16
+	// (where an implementation's staging buffers change size), each followed by a short frame, through both extractors
+	{
+		var ladder []int
+		for n := 4; n <= 80; n++ {
+			ladder = append(ladder, n)
+		}
+		for k := 7; k <= 16; k++ {
+			for dl := -5; dl <= 5; dl++ {
+				ladder = append(ladder, (1<<k)+dl)
+			}
+		}
+		for li, n := range ladder {
+			for _, cname := range []string{"cmpp", "smpp"} {
+				f1, f2 := mkFrame(g, n), mkFrame(g, 12)
+				frames := [][]byte{f1, f2}
+				stream := append(append([]byte(nil), f1...), f2...)
+				for _, mr := range []int{0, 5} {
+					c := &fakeConn{future: append([]byte(nil), stream...), maxRead: mr, endErr: io.EOF}
+					for i, f := range frames {
+						got, err := codecs[cname].DecodeBlocked(c)
+						res.Eval(fmt.Sprintf("ladder/%d/%d/%d", n, mr, i), true)
+						if err != nil || !bytes.Equal(got, f) {
+							res.Violate("C04.blocked-frames-not-exact:"+cname, fmt.Sprintf("frame %d of 2 (declared lengths %d, 12): err=%v, %d octets returned", i+1, n, err, len(got)), []string{"codec " + cname, "frame blocked " + hx(stream) + " 0"})
+							break
+						}
+					}
+				}
+				check(cname, stream, frames, 0, []int{n / 2, n + 3}, n <= 80 && li%4 == 0)
+			}
+		}
+	}
 	nstreams := 60
 	if thorough {
 		nstreams = 1500
